@@ -80,8 +80,8 @@ Definition aw_error : list Z := [-999].
 
 (* one wait of awaiter a on cell c: subscribe; when refused the owner runs the callback itself (resume()) *)
 Definition do_wait (isvoid : bool) (s : ast) (a c : nat) : ast * list Z :=
-  match nth_error (aws s) a with
-  | Some w0 =>
+  match nth_error (aws s) a, nth_error (acells s) c with
+  | Some w0, Some _ =>
       let s0 := set_aw s a (mkAw (aw_next w0) (aw_cell w0) (S (aw_waits w0)) (aw_runs w0)) in
       let '(s1, sub) := sub_check s0 a c in
       if a_err s1 then (s1, aw_error)
@@ -92,7 +92,7 @@ Definition do_wait (isvoid : bool) (s : ast) (a c : nat) : ast * list Z :=
                 0 :: Z.of_nat a :: okind isvoid (ac_pay cl))
            | _, _ => (s1, aw_rejected)
            end
-  | None => (s, aw_rejected)
+  | _, _ => (s, aw_rejected)
   end.
 
 Definition is_ready (s : ast) (c : nat) : bool :=
